@@ -139,6 +139,9 @@ func c09GenCase(r *vh.Rand, kind string, thorough bool) c09Case {
 	}
 	c.SharedOpt = r.Chance(25)
 	c.ParentCB = r.Chance(25)
+	if c.ParentCB {
+		c.ParentCap = r.Range(1, 3) // 3 handlers appended one by one: len 3, cap 4 (spare capacity in the shared parent slice)
+	}
 	sharedOptVal := fmt.Sprintf("<o%d>", r.Intn(10))
 	for i := 0; i < ng; i++ {
 		call := c09Call{In: fmt.Sprintf("c%d:%s", i, strings.Repeat("x", r.Intn(4))), Paradigm: c09Paradigms[r.Intn(4)], Chunks: r.Range(1, 3), CB: r.Chance(50)}
@@ -146,6 +149,9 @@ func c09GenCase(r *vh.Rand, kind string, thorough bool) c09Case {
 			call.Opt = sharedOptVal
 		} else if r.Chance(70) {
 			call.Opt = fmt.Sprintf("<o%d>", i)
+		}
+		if c.ParentCap >= 3 && i < 4 {
+			call.CB = true // several callers append their own handler to the inherited list
 		}
 		if kind == "checkpoint" && (call.Paradigm == "collect" || call.Paradigm == "transform") {
 			call.Paradigm = []string{"invoke", "stream"}[r.Intn(2)]
@@ -389,7 +395,7 @@ func c09Evaluate(ctx *vh.Ctx, c *c09Case, ans *c09OracleAns) {
 		ctx.Res.Dist("sharedOpt")
 	}
 	if c.ParentCB {
-		ctx.Res.Dist("parentCB")
+		ctx.Res.Dist(fmt.Sprintf("parentCB:%d", c.ParentCap))
 	}
 	for _, l := range c.Layers {
 		switch {
@@ -490,8 +496,12 @@ func c09Evaluate(ctx *vh.Ctx, c *c09Case, ans *c09OracleAns) {
 				what = "callbacks"
 			}
 			ctx.Res.Dist("outcome:interference")
+			sig := fmt.Sprintf("C09:interference:%s:%s:%s", c.Kind, c.Calls[i].Paradigm, what)
+			if what == "callbacks" && c.ParentCap >= 3 {
+				sig = "C09:interference:parent-ctx-handlers-spare-capacity:callbacks"
+			}
 			ctx.Res.Disagree(vh.Disagreement{
-				Signature: fmt.Sprintf("C09:interference:%s:%s:%s", c.Kind, c.Calls[i].Paradigm, what),
+				Signature: sig,
 				What:      fmt.Sprintf("call %d (rep %d) run concurrently with %d others returns something else than the same call run alone (%s differs)", i, r, len(c.Calls)-1, what),
 				Case:      c, Model: map[string]any{"call": i, "expected": res.Out.Alone[i]}, Impl: o})
 			return
